@@ -27,7 +27,7 @@ THEOREMS = [
     ("Kopf.Props.C05", "Kopf.C05.none_for_gone_free_noop"),
     ("Kopf.Props.C05", "Kopf.C05.resume_needs_initial_and_optin"),
     ("Kopf.Props.C05", "Kopf.C05.kinds_exclusive"),
-    ("Kopf.Props.C05", "Kopf.C05.field_handler_on_marked_witness"),
+    ("Kopf.Props.C05", "Kopf.C05.no_field_on_marked"),
     ("Kopf.Props.C05", "Kopf.C05.kindless_only_in_handled_causes"),
 ]
 TIE_THEOREMS = [
@@ -43,10 +43,11 @@ RULE = ("exhaustive: 2 event-type classes x marked x own-finalizer x stored-esse
 TRUSTED = ["pyextract atom vocabulary for causes.detect_changing_cause / ChangingRegistry.iter_handlers",
            "the six booleans are read off real bodies by kopf's own finalizers/diffbase code (exercised, not modelled, here)"]
 ASSUMPTIONS = ["filters (`match`) are C15's subject and appear here as an opaque boolean",
-               "reading of 'creation/update handlers': handlers declared with on.create/on.update (reason=create/update). "
-               "on.field handlers have no cause kind (docs: 'no special detection of the causes for the fields') and are let "
-               "into the deletion cause by the gate (`field_handler_on_marked_witness`); the clause is not claimed for them, "
-               "`kindless_only_in_handled_causes` is"]
+               "reading of 'creation/update handlers': on.create/on.update handlers AND on.field handlers (no cause kind; "
+               "docs/handlers.rst: 'there is no special detection of the causes for the fields, such as create/update/delete, "
+               "so the field handler is effective only when the object is updated'): since /repo 345a874 none of them runs on "
+               "an object marked for deletion (`no_create_update_on_marked`, `no_field_on_marked`); field handlers still run "
+               "in the creation cause when the field is present (the code's reading of 'changed'), which the property allows"]
 
 REASONS = ["create", "update", "delete", "resume", "noop", "free", "gone"]
 
@@ -307,6 +308,9 @@ async def _run(ctx: Ctx) -> None:
             if selected and hr is not None and hr != reason:
                 ctx.oracle_fail(f"a {hr} handler was selected for a {reason} cause", {"handler": hj, "cause": cj},
                                 {"site": "ChangingRegistry.iter_handlers", "shape": "kind-mismatch"})
+            if selected and hr is None and not hi and marked:
+                ctx.oracle_fail("a field handler (no cause kind, not resuming) was selected on an object marked for deletion",
+                                {"handler": hj, "cause": cj}, {"site": "ChangingRegistry.iter_handlers", "shape": "field-on-marked"})
             if selected and hi and (not cinit or (marked and not hd)):
                 ctx.oracle_fail("a resume handler was selected without first sight / on a deleting object without opt-in",
                                 {"handler": hj, "cause": cj}, {"site": "ChangingRegistry.iter_handlers", "shape": "resume-gate"})
@@ -355,12 +359,14 @@ def closed_loop(ctx: Ctx) -> None:
     n = ctx.budget(60, 1500)
     scenarios = [c14.gen_scenario(ctx.rng, 31_000_000 + ctx.seed * 100000 + i) for i in range(n)]
     scenarios += [c02.gen_supersede(ctx.rng, 32_000_000 + ctx.seed * 100000 + i) for i in range(n // 2)]
+    scenarios += [gen_field_delete(ctx.rng, 33_000_000 + ctx.seed * 100000 + i) for i in range(max(12, n // 3))]
     scenarios += [d.get("scenario", d) for _, d in __import__("harness.core", fromlist=["load_corpus"]).load_corpus("C05")]
     for sc, res in zip(scenarios, pool.run_many(scenarios, wall=40.0)):
         if "trace" not in res or res["trace"].get("sim_error"):
             raise RuntimeError(f"simulation failed: {str(res)[:1500]}")
         tr = res["trace"]
         ctx.traces += 1
+        _call_clauses(ctx, sc, tr)
         first_by_listing: dict[tuple, bool] = {}
         ended: set[tuple] = set()
         for cyc in tr["cycles"]:
@@ -399,6 +405,56 @@ def closed_loop(ctx: Ctx) -> None:
                                ((p.get("outcomes") or {}).get(h) or {}).get("final")) for h in p["selected"])
                 if fin:
                     ended.add(key)
+
+
+def gen_field_delete(rng: Any, i: int) -> dict:
+    """Field handlers next to create/update/delete handlers; a field is changed shortly before (or while the
+    operator is down, or together with) the deletion request, so that the deletion cause carries a changed field."""
+    handlers = [{"kind": "field", "id": "f0", "opts": {"field": "spec.x"}, "script": [rng.choice(["ok", ["temp", 1.0]])], "default": "ok"},
+                {"kind": "delete", "id": "d0", "opts": {"optional": rng.random() < 0.3},
+                 "script": [rng.choice(["ok", ["temp", 1.0], ["sleep", 0.5, "ok"]])], "default": "ok"}]
+    if rng.random() < 0.6:
+        handlers.append({"kind": "update", "id": "u0", "script": [rng.choice(["ok", ["temp", 2.0]])], "default": "ok"})
+    if rng.random() < 0.6:
+        handlers.append({"kind": "create", "id": "c0", "script": ["ok"], "default": "ok"})
+    if rng.random() < 0.3:
+        handlers.append({"kind": "resume", "id": "r0", "opts": {"deleted": rng.random() < 0.5}, "script": ["ok"], "default": "ok"})
+    rng.shuffle(handlers)
+    tl: list[list] = [[1.0, "create", "a", {"spec": {"x": 0, "y": 0}, "metadata": {"labels": {"l": "1"}}}]]
+    t = 4.0
+    mode = rng.choice(["edit-then-delete", "down", "same-instant", "edit-during-deletion"])
+    if mode == "down":
+        tl += [[t, rng.choice(["stop", "kill"])], [t + 0.5, "edit", "a", {"spec": {"x": 1}}], [t + 0.75, "delete", "a"], [t + 1.5, "start"]]
+    elif mode == "same-instant":
+        tl += [[t, "edit", "a", {"spec": {"x": 1}}], [t, "delete", "a"]]
+    elif mode == "edit-during-deletion":
+        tl += [[t, "delete", "a"], [t + rng.choice([0.015625, 0.25, 0.75]), "edit", "a", {"spec": {"x": 2}}]]
+    else:
+        tl += [[t, "edit", "a", {"spec": {"x": 1}}], [t + rng.choice([0.015625, 0.125, 0.5, 2.0]), "delete", "a"]]
+    return {"seed": i, "lifecycle": rng.choice(["asap", "one_by_one", "all_at_once"]), "handlers": handlers, "timeline": tl,
+            "settings": {"execution.default_backoff": 1.0}, "end": t + 25.0}
+
+
+def _call_clauses(ctx: Ctx, sc: dict, tr: dict) -> None:
+    """Which handlers ran, from the property text, over the body each invocation was given."""
+    own = "kopf.zalando.org/KopfFinalizerMarker"
+    kinds = {h["id"]: h for h in sc["handlers"]}
+    for c in tr["calls"]:
+        h = kinds.get(c["id"])
+        if h is None:
+            continue
+        k = h["kind"]
+        if k in ("create", "update", "field") and c.get("marked"):
+            ctx.oracle_fail(f"a {k} handler ({c['id']}) was invoked on an object marked for deletion",
+                            {"scenario": sc, "call": c}, {"site": "ChangingRegistry.iter_handlers", "shape": f"{k} handler on a marked object"})
+        if k == "delete" and not (c.get("marked") and own in (c.get("finalizers") or [])):
+            ctx.oracle_fail(f"a deletion handler ({c['id']}) was invoked while the object was not marked for deletion "
+                            "or not held by the framework's finalizer",
+                            {"scenario": sc, "call": c}, {"site": "ChangingRegistry.iter_handlers", "shape": "delete handler outside a held deletion"})
+        if k in ("create", "update", "delete", "resume", "field") and c.get("reason") in ("gone", "free", "noop"):
+            ctx.oracle_fail(f"change handler {c['id']} invoked for a {c.get('reason')} event",
+                            {"scenario": sc, "call": c}, {"site": "process_changing_cause", "shape": "handler in an informational cause"})
+        ctx.count("closed_loop_calls", f"{k}:{'marked' if c.get('marked') else 'unmarked'}")
 
 
 def search(ctx: Ctx, broken: list) -> None:
